@@ -68,48 +68,76 @@ def api_view(major, vector):
                   "rh": o.rh_vector(), "json": o.as_json(sort=True, minimal=True), "major": major}
 
 
-def check_report(text, view, want_json):
-    """Does `text` (the part of stdout after any dialogue) report `view`? Returns why-or-None."""
-    lines = text.split("\n")
-    found = {}
+SCORE_WORDS = ["base", "temporal", "environmental"]
+
+
+def _shows(lines, value):
+    """Is `value` printed as the last thing of some line, not as the tail of a longer token?
+    ("Red Hat vector: 7.5/AV:N/..." does not show the cleaned vector "AV:N/...".)"""
     for ln in lines:
+        ln = ln.rstrip()
+        if ln.endswith(value):
+            before = ln[:len(ln) - len(value)]
+            if before == "" or before[-1].isspace() or before[-1] in ":=":
+                return True
+    return False
+
+
+def check_report(text, view, want_json):
+    """Does `text` (the part of stdout after any dialogue) report `view`? Returns why-or-None.
+    The statement fixes what is reported, not the wording of labels: a score line is a line whose
+    label (the text before its first colon) contains "base" / "temporal" / "environmental" in any
+    letter case; the two vectors must end a line; the JSON document is what starts at the first
+    line that opens with "{"."""
+    lines = text.split("\n")
+    jstart = None
+    for k, ln in enumerate(lines):
+        if ln.startswith("{"):
+            jstart = k
+            break
+    body = lines if jstart is None else lines[:jstart]
+    found = {}
+    for ln in body:
         if ":" in ln:
             label, rest = ln.split(":", 1)
-            found.setdefault(label.strip(), rest.strip())
+            low = label.lower()
+            for w in SCORE_WORDS:
+                if w in low and "vector" not in low:
+                    found.setdefault(w, rest.strip())
     sc, sv = view["scores"], view["severities"]
     for i, s in enumerate(sc):
         label = LABELS[i]
+        w = SCORE_WORDS[i]
         if s is None:
-            if label in found and found[label].split()[:1] not in ([], ["None"]):
-                return "%s line shows %r for an undefined score" % (label, found[label])
+            if w in found and found[w].split()[:1] not in ([], ["None"]):
+                return "%s line shows %r for an undefined score" % (label, found[w])
             continue
-        if label not in found:
+        if w not in found:
             return "no %r line" % label
-        toks = found[label].split()
+        toks = found[w].split()
         if not toks or toks[0] != repr(s):
-            return "%s line shows %r, the API reports %r" % (label, found[label], s)
+            return "%s line shows %r, the API reports %r" % (label, found[w], s)
         rating = "(%s)" % sv[i]
         if view["major"] >= 3:
             if rating not in toks[1:]:
-                return "%s line %r lacks the rating %s" % (label, found[label], rating)
+                return "%s line %r lacks the rating %s" % (label, found[w], rating)
         elif len(toks) > 1 and toks[1] != rating:
             return "%s line shows rating %r, the API reports %s" % (label, toks[1], rating)
-    for label in LABELS[len(sc):]:
-        if label in found:
-            return "%s line printed although CVSS%d defines no such score" % (label, view["major"])
-    if found.get("Cleaned vector") != view["clean"]:
-        return "Cleaned vector line shows %r, the API reports %r" % (found.get("Cleaned vector"), view["clean"])
-    if found.get("Red Hat vector") != view["rh"]:
-        return "Red Hat vector line shows %r, the API reports %r" % (found.get("Red Hat vector"), view["rh"])
-    marker = "CVSS vector in JSON:"
+    for i in range(len(sc), 3):
+        if SCORE_WORDS[i] in found:
+            return "%s line printed although CVSS%d defines no such score" % (LABELS[i], view["major"])
+    if not _shows(body, view["clean"]):
+        return "no line shows the cleaned vector %r the API reports" % (view["clean"],)
+    if not _shows(body, view["rh"]):
+        return "no line shows the Red Hat vector %r the API reports" % (view["rh"],)
     if want_json:
-        if marker not in text:
+        if jstart is None:
             return "no JSON document printed although -j was given"
-        doc = text.split(marker, 1)[1]
+        doc = "\n".join(lines[jstart:])
         try:
             got = json.loads(doc, object_pairs_hook=OrderedDict)
         except ValueError as e:
-            return "text after %r is not a JSON document: %s" % (marker, e)
+            return "text from the first line that opens with '{' is not a JSON document: %s" % (e,)
         want = json.loads(json.dumps(view["json"]))
         if dict(got) != want:
             return "JSON document differs from as_json(sort=True, minimal=True)"
@@ -118,7 +146,7 @@ def check_report(text, view, want_json):
         for k, v in got.items():
             if type(v) is not type(want[k]):
                 return "JSON field %s has another type than in as_json()" % k
-    elif marker in text:
+    elif jstart is not None:
         return "a JSON document is printed although -j was not given"
     return None
 
@@ -132,10 +160,11 @@ def judge_vector(args, vector, res, want_json):
     for major, _ in selected(args):
         kind, view = api_view(major, vector)
         if kind == "error":
-            lines = [l for l in res["out"].split("\n")]
-            # the message may itself contain newlines (the vector is echoed): compare as a block
-            if res["out"].rstrip("\n") == view.rstrip("\n") or view in lines:
-                return None
+            # the message may itself contain newlines (the vector is echoed): compare as a block;
+            # the statement says "prints", not on which stream
+            for chan in (res["out"], res["err"]):
+                if chan.rstrip("\n") == view.rstrip("\n") or view in chan.split("\n"):
+                    return None
             whys.append("CVSS%d rejects the vector with %r but the output is %r" % (major, view, res["out"][:200]))
         else:
             why = check_report(res["out"], view, want_json)
@@ -152,6 +181,4 @@ def basic(res):
         return "exit status %r" % (res["status"],)
     if "Traceback" in res["out"] or "Traceback" in res["err"]:
         return "a traceback is printed"
-    if res["err"]:
-        return "something is written to stderr: %r" % res["err"][:200]
     return None
